@@ -111,6 +111,14 @@ func main() {
 		st.Warnings = append(st.Warnings, "neither defaultResolutionCache nor cacheOrDefault exists: no library cache instance for the checks")
 	}
 	hooks := strings.Replace(hooksSrc, "return defaultResolutionCache()", cacheBody, 1)
+	// the debug trace of the package (spec.Debug) goes to a package-level *log.Logger: give the
+	// checks a way to silence it, if the variables are still there
+	if v, ok := p.Types.Scope().Lookup("specLogger").(*types.Var); ok && v.Type().String() == "*log.Logger" {
+		if d, ok := p.Types.Scope().Lookup("Debug").(*types.Var); ok && d.Type().String() == "bool" {
+			hooks = strings.Replace(hooks, "func VerifTrace(on bool) bool { return false }",
+				"func VerifTrace(on bool) bool {\n\tif specLogger != nil {\n\t\tspecLogger.SetOutput(verifDiscard{})\n\t}\n\tDebug = on\n\treturn true\n}", 1)
+		}
+	}
 	hp := filepath.Join(out, "zz_verif_hooks.go")
 	if err := os.WriteFile(hp, []byte(hooks), 0o644); err != nil {
 		die("%v", err)
@@ -847,6 +855,14 @@ func verifWGWait(wg *sync.WaitGroup, site string) {
 	}
 	wg.Wait()
 }
+
+// VerifTrace switches the debug trace of the package on or off, its output discarded; false when
+// the package has no such switch any more.
+func VerifTrace(on bool) bool { return false }
+
+type verifDiscard struct{}
+
+func (verifDiscard) Write(p []byte) (int, error) { return len(p), nil }
 
 // VerifNewSimpleCache returns a fresh instance of the package's own cache implementation,
 // pre-loaded like the default one, so that it can be shared between simulated callers.
